@@ -6,6 +6,7 @@ package main
 import (
 	"context"
 	"encoding/hex"
+	"encoding/json"
 	"fmt"
 	"math/big"
 	"math/rand"
@@ -28,10 +29,11 @@ type state struct {
 	epubs  map[string]int
 	esigs  []string
 	elabel map[string]int
+	clients map[string]*client.Client
 }
 
 func newState() *state {
-	return &state{w: cryptow.New(), ids: map[string]int{}, ekeys: map[string]encryption.SignatureScheme{}, epubs: map[string]int{}, elabel: map[string]int{}}
+	return &state{w: cryptow.New(), ids: map[string]int{}, ekeys: map[string]encryption.SignatureScheme{}, epubs: map[string]int{}, elabel: map[string]int{}, clients: map[string]*client.Client{}}
 }
 
 func label(m map[string]int, k string) int {
@@ -66,6 +68,39 @@ func (s *state) clientOf(pkHex string, scheme string) string {
 	return r + " idBAD"
 }
 
+// anyKey: the scheme object and scheme name a key name stands for (ed25519 keys shadow BLS keys of the same name).
+func (s *state) anyKey(k string) (encryption.SignatureScheme, string, bool) {
+	if e, ok := s.ekeys[k]; ok {
+		return e, encryption.SignatureSchemeEd25519, true
+	}
+	if b, ok := s.w.Keys[k]; ok {
+		return b, encryption.SignatureSchemeBls0chain, true
+	}
+	return nil, "", false
+}
+
+// showClient: the id label of ONE long-lived client object and whether the id is the sha3-256 (computed here, not through
+// the repository) of the public key the object CURRENTLY carries, its cached key bytes are those of that key, and
+// Validate / VerifyPublicKeyClientID agree.
+func (s *state) showClient(c *client.Client) string {
+	if c.PublicKey == "" {
+		return "nokey"
+	}
+	pkb, err := hex.DecodeString(c.PublicKey)
+	if err != nil {
+		return "err"
+	}
+	h := sha3.Sum256(pkb)
+	want := hex.EncodeToString(h[:])
+	ok := c.ID == want && hex.EncodeToString(c.PublicKeyBytes) == c.PublicKey &&
+		c.Validate(context.Background()) == nil && encryption.VerifyPublicKeyClientID(c.PublicKey, c.ID) == nil
+	r := fmt.Sprintf("I%d", label(s.ids, c.ID))
+	if ok {
+		return r + " idok"
+	}
+	return r + " idBAD"
+}
+
 func (s *state) pushE(sig string) string {
 	idx := len(s.esigs)
 	s.esigs = append(s.esigs, sig)
@@ -77,6 +112,67 @@ func (s *state) step(ws []string) string {
 		return "bad-op"
 	}
 	switch {
+	case ws[0] == "cnew" && len(ws) == 2:
+		s.clients[ws[1]] = client.NewClient()
+		return "ok"
+	case (ws[0] == "csetpk" || ws[0] == "csetscheme" || ws[0] == "cdecode") && len(ws) == 3:
+		c, ok := s.clients[ws[1]]
+		sc, name, ok2 := s.anyKey(ws[2])
+		if !ok || !ok2 {
+			return "bad-op"
+		}
+		switch ws[0] {
+		case "csetpk":
+			c.SetSignatureSchemeType(name)
+			if err := c.SetPublicKey(sc.GetPublicKey()); err != nil {
+				return "err"
+			}
+		case "csetscheme":
+			// a verifier-side scheme object (public key only) of the right kind
+			v := encryption.GetSignatureScheme(name)
+			if err := v.SetPublicKey(sc.GetPublicKey()); err != nil {
+				return "err"
+			}
+			if err := c.SetSignatureScheme(v); err != nil {
+				return "err"
+			}
+		case "cdecode":
+			if err := json.Unmarshal([]byte(`{"public_key":"`+sc.GetPublicKey()+`"}`), c); err != nil {
+				return "err"
+			}
+			if err := c.ComputeProperties(); err != nil {
+				return "err"
+			}
+		}
+		return s.showClient(c)
+	case ws[0] == "cstatus" && len(ws) == 2:
+		c, ok := s.clients[ws[1]]
+		if !ok {
+			return "bad-op"
+		}
+		return s.showClient(c)
+	case ws[0] == "cverify" && len(ws) == 4:
+		c, ok := s.clients[ws[1]]
+		i, err := strconv.Atoi(ws[2])
+		m, ok2 := s.w.Msgs[ws[3]]
+		if !ok || c.PublicKey == "" || err != nil || i < 0 || i >= len(s.w.Sigs) || !ok2 {
+			return "bad-op"
+		}
+		r, err := c.Verify(s.w.Sigs[i].SerializeToHexStr(), hex.EncodeToString(m))
+		if err != nil {
+			return "false"
+		}
+		return strconv.FormatBool(r)
+	case ws[0] == "kdirect" && len(ws) == 4:
+		k, ok := s.w.Keys[ws[1]]
+		i, err := strconv.Atoi(ws[2])
+		m, ok2 := s.w.Msgs[ws[3]]
+		if !ok || err != nil || i < 0 || i >= len(s.w.Sigs) || !ok2 {
+			return "bad-op"
+		}
+		// the library itself, without the repository's wrapper, over exactly the message bytes
+		sg := s.w.Sigs[i]
+		return strconv.FormatBool(sg.Verify(k.GetBLSPublicKey(), string(m)))
 	case ws[0] == "client" && len(ws) == 2:
 		k, ok := s.w.Keys[ws[1]]
 		if !ok {
@@ -227,8 +323,42 @@ func genCase(r *rand.Rand, thorough bool, i int) []string {
 	add("order")
 	nk := 1 + r.Intn(4)
 	nm := 1 + r.Intn(3)
-	for m := 0; m < nm; m++ {
-		add("msg h%d %s", m, rndGeneric(r))
+	if r.Intn(3) == 0 {
+		// hashes that are not 32 bytes long, and hashes related by a common 32-byte prefix / trailing zero bytes:
+		// every distinct byte string is a distinct hash
+		H := make([]byte, 32)
+		r.Read(H)
+		short := make([]byte, 1+r.Intn(6))
+		r.Read(short)
+		x, y := make([]byte, 1+r.Intn(8)), make([]byte, 1+r.Intn(8))
+		r.Read(x)
+		r.Read(y)
+		y[0] = x[0] ^ 0x5a
+		pad := append(append([]byte{}, short...), make([]byte, 32-len(short))...)
+		long := make([]byte, 64)
+		r.Read(long)
+		copy(long, H)
+		fam := [][]byte{H, append(append([]byte{}, H...), 0), append(append([]byte{}, H...), 1), append(append([]byte{}, H...), x...),
+			append(append([]byte{}, H...), y...), short, append(append([]byte{}, short...), 0), pad, {}, {0}, H[:31], H[:1], long, long[:40], long[:33]}
+		r.Shuffle(len(fam), func(a, b int) { fam[a], fam[b] = fam[b], fam[a] })
+		seen := map[string]bool{}
+		nm = 0
+		for _, b := range fam {
+			hx := hex.EncodeToString(b)
+			if seen[hx] || nm >= 5+r.Intn(3) {
+				continue
+			}
+			seen[hx] = true
+			if hx == "" {
+				hx = "-"
+			}
+			add("msgb h%d %s %s", nm, hx, rndGeneric(r))
+			nm++
+		}
+	} else {
+		for m := 0; m < nm; m++ {
+			add("msg h%d %s", m, rndGeneric(r))
+		}
 	}
 	if r.Intn(2) == 0 { // bls0chain
 		for k := 0; k < nk; k++ {
@@ -243,6 +373,12 @@ func genCase(r *rand.Rand, thorough bool, i int) []string {
 					sigs = append(sigs, sg{k, m, nsig})
 					nsig++
 				}
+			}
+		}
+		for _, s := range sigs {
+			add("kdirect k%d %d h%d", s.k, s.idx, s.m) // what Sign produced is the library's signature over exactly these bytes
+			if r.Intn(3) == 0 {
+				add("kdirect k%d %d h%d", s.k, s.idx, r.Intn(nm))
 			}
 		}
 		for _, s := range sigs {
@@ -274,6 +410,27 @@ func genCase(r *rand.Rand, thorough bool, i int) []string {
 		}
 		for x := 0; x < 3; x++ {
 			add("clientcheck k%d k%d", r.Intn(nk), r.Intn(nk))
+		}
+		// ONE client object whose key changes: set, set another, scheme object, decode + ComputeProperties; also ed25519 keys
+		add("ekey e0 %d", r.Intn(1<<20))
+		add("cnew c")
+		if r.Intn(4) == 0 {
+			add("cstatus c")
+		}
+		for x := 0; x < 2+r.Intn(5); x++ {
+			kn := fmt.Sprintf("k%d", r.Intn(nk))
+			if r.Intn(5) == 0 {
+				kn = "e0"
+			}
+			op := []string{"csetpk", "csetscheme", "cdecode"}[r.Intn(3)]
+			add("%s c %s", op, kn)
+			if op != "cdecode" && kn != "e0" && len(sigs) > 0 && r.Intn(2) == 0 {
+				sg := sigs[r.Intn(len(sigs))]
+				add("cverify c %d h%d", sg.idx, sg.m)
+			}
+			if r.Intn(3) == 0 {
+				add("cstatus c")
+			}
 		}
 	} else { // ed25519
 		seeds := make([]int, nk)
@@ -313,12 +470,17 @@ func genCase(r *rand.Rand, thorough bool, i int) []string {
 		for k := 0; k < nk; k++ {
 			add("eclient e%d", k)
 		}
+		add("cnew c")
+		for x := 0; x < 2+r.Intn(4); x++ {
+			add("%s c e%d", []string{"csetpk", "csetscheme", "cdecode"}[r.Intn(3)], r.Intn(nk))
+		}
+		add("cstatus c")
 	}
 	return ops
 }
 
 func genMalformed(r *rand.Rand) []string {
-	return []string{"dkg 0 0", "key k 5", "msg a 3", "client nokey", "clientcheck k nokey", "ekey e x", "esign e a", "ekey e 1", "esign e nomsg", "etamper 0", "everify e 0 a", "eclient f", "kverify k 0 a", "frob"}
+	return []string{"dkg 0 0", "key k 5", "msg a 3", "client nokey", "clientcheck k nokey", "csetpk c k", "cnew c", "csetpk c nokey", "cverify c 0 a", "kdirect k 9 a", "msgb z zz 3", "msgb z abc 3", "ekey e x", "esign e a", "ekey e 1", "esign e nomsg", "etamper 0", "everify e 0 a", "eclient f", "kverify k 0 a", "frob"}
 }
 
 func genAll(r *rand.Rand, thorough bool, i int) []string {
@@ -340,6 +502,14 @@ func main() {
 		Fixed: [][]string{
 			{"dkg 0 0", "msg a 3", "msg b 4", "key k0 5", "key k1 7", "key k2 16798108731015832284940804142231733909759579603404752749028378864165570215954",
 				"ksign k0 a", "kverify k0 0 a", "kverify k1 0 a", "kverify k0 0 b", "kverify k2 0 a", "client k0", "client k1", "client k2", "clientcheck k0 k2", "clientcheck k0 k1"},
+			// one client object, two keys one after the other, through every way of setting a key
+			{"dkg 0 0", "key k0 5", "key k1 7", "ekey e0 3", "cnew c", "cstatus c", "csetpk c k0", "csetpk c k1", "cstatus c", "csetscheme c k0", "cdecode c k1", "csetpk c e0", "cdecode c k0", "cstatus c",
+				"cnew d", "cdecode d k0", "cdecode d k1", "csetscheme d k0"},
+			// hashes of other lengths: H, H||00, H||x, a short hash and its zero-padded forms, the empty hash
+			{"dkg 0 0", "key k0 5", "msgb h0 " + strings.Repeat("ab", 32) + " 3", "msgb h1 " + strings.Repeat("ab", 32) + "00 4", "msgb h2 " + strings.Repeat("ab", 32) + "deadbeef 6",
+				"msgb h3 01020304 7", "msgb h4 0102030400 8", "msgb h5 01020304" + strings.Repeat("00", 28) + " 9", "msgb h6 - 10",
+				"ksign k0 h0", "ksign k0 h2", "ksign k0 h3", "ksign k0 h6", "kdirect k0 0 h0", "kdirect k0 1 h2", "kdirect k0 2 h3", "kdirect k0 3 h6",
+				"kverify k0 0 h0", "kverify k0 0 h1", "kverify k0 0 h2", "kverify k0 1 h0", "kverify k0 1 h2", "kverify k0 2 h3", "kverify k0 2 h4", "kverify k0 2 h5", "kverify k0 3 h6", "kverify k0 3 h3"},
 			{"dkg 0 0", "msg a 3", "msg b 4", "ekey e0 1", "ekey e1 2", "ekey e2 1", "esign e0 a", "everify e0 0 a", "everify e1 0 a", "everify e0 0 b", "everify e2 0 a", "etamper 0", "everify e0 1 a", "eclient e0", "eclient e1", "eclient e2"},
 		},
 	})
